@@ -13,6 +13,9 @@ SubsetsOfMods == SUBSET Mods
 GateObs(g) == [g |-> g, kind |-> Kind(slot, g), path |-> PathFrom(slot, g), end |-> EndOf(slot, g)]
 TopoObs(S) == [nodes |-> S, edges |-> EdgesOf(slot, S), connected |-> Connected(slot, S),
                bidirectional |-> Bidirectional(slot, S)]
+(* views after Topology::filter_edges with an orientation predicate: asymmetric graphs *)
+AsymObs(dir) == LET E == {e \in EdgesOf(slot, Mods) : IF dir = "lt" THEN e.from < e.to ELSE e.from > e.to} IN
+                [dir |-> dir, view |-> [nodes |-> Mods, edges |-> E, connected |-> ConnectedE(Mods, E), bidirectional |-> BidirectionalE(E)]]
 DijkObs(src) == [src |-> src,
                  targets |-> {[v |-> v, first |-> FirstEdges(slot, Mods, src, v)] :
                                 v \in {w \in Mods \ {src} : Dist(slot, Mods, src)[w] <= NM}}]
@@ -21,6 +24,7 @@ Obs == [calls |-> hist,
         global |-> TopoObs(Mods),
         spanned |-> {[root |-> r, view |-> TopoObs(Reach(slot, r))] : r \in Mods},
         filtered |-> {[keep |-> S, view |-> TopoObs(S)] : S \in SubsetsOfMods},
+        asym |-> {AsymObs("lt"), AsymObs("gt")},
         dijkstra |-> {DijkObs(m) : m \in Mods}]
 Emit == (ncalls = MaxCalls \/ dead) => PrintT(<<"REPLAY", ToJson(Obs)>>)
 =============================================================================
